@@ -112,7 +112,8 @@ template <class Fsm> std::string mlabel(Fsm const& f) {
 struct Effect {
     std::string site;   // callback site label, or "*" kind wildcard not supported
     char kind;          // callback kind the effect is attached to (G,A,EN,EX -> 'G','A','N','X'; 'T' no_transition; 'C' exception_caught)
-    int nth;            // fire at the nth invocation (1-based) of that (kind,site) counted from script start
+    int nth;            // fire at the nth invocation (1-based) of that (kind,site) counted from registration
+    int base = 0;       // invocation count at registration
     char api;           // 'p' process_event, 'q' enqueue_event
     char target;        // 's' self (Fsm& argument), 'r' root of the driven instance
     int ev;             // event type index
@@ -176,7 +177,7 @@ void after_callback(char kind, const char* site, Fsm& fsm, bool may_throw) {
     int n = ++S.calls[key];
     for (size_t i = 0; i < S.effects.size(); ++i) {
         Effect& fx = S.effects[i];
-        if (fx.done || fx.kind != kind || fx.nth != n || fx.site != site) continue;
+        if (fx.done || fx.kind != kind || fx.base + fx.nth != n || fx.site != site) continue;
         fx.done = true;
         char tmp[160];
         snprintf(tmp, sizeof tmp, "SUB %s %c %c %c E%d:%d", site, kind, fx.api, fx.target, fx.ev, fx.id);
